@@ -6,7 +6,7 @@ CONSTANTS
   HT = 1
   PreVote = FALSE
   CheckQuorum = FALSE
-  MaxTerm = 2
+  MaxTerm = 3
   MaxLen = 3
   MaxMsgs = 2
   MaxDup = 0
@@ -17,7 +17,7 @@ CONSTANTS
   MaxSnap = 0
   CCChoices = {}
   JoinKind <- NoJoin
-  Eager = FALSE
+  Eager = TRUE
   G <- GAll
   TrackEvidence = FALSE
 CONSTRAINT Bounded
